@@ -205,7 +205,8 @@ impl<'a> G<'a> {
             _ => {
                 let a = self.int(d - 1);
                 let b = self.int(d - 1);
-                format!("({a} <= {b})")
+                let op = ["<=", ">", ">=", "!=", "<"][self.p.usize(5)];
+                format!("({a} {op} {b})")
             }
         }
     }
@@ -297,7 +298,17 @@ impl<'a> G<'a> {
                     let t = self.t();
                     let body = { let n = 1 + self.p.usize(2); self.stmts(n, ind + 1) };
                     s.push_str(&format!("{pad}let {k} = ref(0);\n"));
-                    let tail = if self.p.chance(1, 2) {
+                    let tail = if self.cfg.nested_go && self.go_depth < 2 && self.p.chance(1, 3) {
+                        // `go` as the value of the loop body / of a branch in tail position
+                        self.go_depth += 1;
+                        let gb = { let n = 1 + self.p.usize(2); self.stmts(n, ind + 2) };
+                        self.go_depth -= 1;
+                        if self.p.chance(1, 2) {
+                            format!(";\n{pad}    go || {{\n{gb}{pad}        ()\n{pad}    }}")
+                        } else {
+                            format!(";\n{pad}    if ref_get({k}) < 1 {{ go || {{\n{gb}{pad}        ()\n{pad}    }} }} else {{ () }}")
+                        }
+                    } else if self.p.chance(1, 2) {
                         let e = self.int(1);
                         match self.p.below(3) {
                             0 => format!(";\n{pad}    Eff::emit(dv, {e})"),
